@@ -432,3 +432,61 @@ func HInst(tmpl, lens, methodIdx int) {
 		zz.Assert(others, "P3: an instance that only its own template matches is dispatched to that template")
 	}
 }
+
+var zzRawArgs = [][2]string{{"%2F", "/"}, {"%2f", "/"}, {"%41", "A"}, {"a%20b", "a b"}, {"%c3%A9", "é"}}
+
+// HRawInst: requests whose RawPath carries percent-escapes inside an argument value (the escaped form
+// of a template instance); lookup and serving must agree, with and without the path prefix, and deliver
+// the decoded value.
+func HRawInst(tmpl, rawKind, methodIdx, prefixIdx int) {
+	if tmpl >= len(zzTemplates) {
+		return
+	}
+	t := zzTemplates[tmpl]
+	if zzParamCount(t) == 0 {
+		return
+	}
+	method := zzMethods[methodIdx]
+	if _, ok := t.Methods[method]; !ok {
+		return
+	}
+	prefix := zzPrefixes[prefixIdx]
+	raw, dec := []string{}, []string{}
+	for i := 0; i < zzParamCount(t); i++ {
+		if i == 0 {
+			raw = append(raw, zzRawArgs[rawKind][0])
+			dec = append(dec, zzRawArgs[rawKind][1])
+		} else {
+			c := zz.String(1)
+			zz.Assume(zz.And(c[0] >= 'k', c[0] <= 'z')) // a plain letter outside the grammar's static alphabet
+			raw = append(raw, c)
+			dec = append(dec, c)
+		}
+	}
+	u := &url.URL{Path: prefix + zzInstantiate(t, dec), RawPath: prefix + zzInstantiate(t, raw)}
+	seen := &zzSeen{}
+	s := zzNewServer(prefix, seen)
+	route, found := s.FindPath(method, u)
+	rec := &zzRecorder{header: http.Header{}}
+	s.ServeHTTP(rec, &http.Request{Method: method, URL: u, Header: http.Header{}})
+	zz.Cover("raw-instance-requested")
+	zz.Assert(found == (seen.calls == 1), "P5 (escaped paths): FindPath finds a route exactly when ServeHTTP runs a handler")
+	if !found {
+		return
+	}
+	zz.Assert(seen.op == route.Name(), "P5 (escaped paths): ServeHTTP and FindPath agree on the operation")
+	args := route.Args()
+	if route.PathPattern() == t.Pattern {
+		zz.Cover("raw-instance-reached-its-template")
+		zz.Assert(len(args) == len(dec), "P5 (escaped paths): one argument per parameter")
+		same := len(args) == len(dec)
+		k := 0
+		for _, pt := range t.Parts {
+			if pt.Param != "" && k < len(args) && k < len(dec) {
+				same = zz.And(same, zz.And(zz.EqString(args[k], dec[k]), zz.EqString(seen.params[pt.Param], dec[k])))
+				k++
+			}
+		}
+		zz.Assert(same, "escaped paths: lookup and handler both receive the decoded argument values")
+	}
+}
